@@ -115,6 +115,18 @@ fn robertson() -> Prob {
     }
 }
 
+/// atol/rtol of the nonlinear scenes.  Robertson's second component is about 3.6e-5 and the problem is
+/// unstable as soon as it turns negative (finite-time blow-up): an absolute tolerance above its size
+/// leaves its sign uncontrolled and the scene is not well-conditioned at that tolerance any more
+/// (measured: BDF at rtol 0.1/atol 1e-4 and Radau at rtol 0.3/atol 3e-4 both leave through y2 < 0).
+fn atol_factor(p: &Prob) -> f64 {
+    if p.name == "robertson" {
+        1e-7
+    } else {
+        1e-3
+    }
+}
+
 fn vdp(mu: f64) -> Prob {
     Prob {
         name: format!("vanderpol(mu={})", mu),
@@ -283,7 +295,7 @@ pub fn run_check(replay: Option<Value>) -> i32 {
         let mut errs: Vec<f64> = vec![];
         let mut viols: Vec<(String, String)> = vec![];
         for rtol in &rtols {
-            let atol = rtol * 1e-3;
+            let atol = rtol * atol_factor(p);
             let mut c = Cfg::new(m, 0.0, *span, &p.y0).tol(*rtol, atol);
             c.user_jac = idx[2] == 0;
             let r = run(p, &c);
@@ -356,7 +368,7 @@ pub fn run_check(replay: Option<Value>) -> i32 {
     lattice(&mut rep, "newton", &ndims, only.as_deref(), |key, idx| {
         let (p, span) = &nprobs[idx[0]];
         let rtol = rtols[idx[1]];
-        let atol = rtol * 1e-3;
+        let atol = rtol * atol_factor(p);
         let mut c = Cfg::new(Method::RADAU, 0.0, *span, &p.y0).tol(rtol, atol);
         c.user_jac = idx[2] == 0;
         c.keep_log = true;
